@@ -10,6 +10,8 @@
 
    Correspondence with the Go control flow:
      processField/processNamedField            -> body of [um_fields]
+     processAnonymousField(Required|Optional),
+       processAnonymousStructFieldOptional     -> the [FEmbed] case of [um_fields], [um_opt_members]
      parseKeyAndOptions (range syntax errors)  -> [opts_ok]
      fieldOptions.toOptionsWithContext         -> [resolve]
      processNamedFieldWithoutValue             -> [um_default] / [zero] / [um_absent]
@@ -24,7 +26,7 @@
      convertTypeFromString                     -> [conv_string]
      validateNumberRange                       -> [check_range]
 
-   [variant] switches the five repaired defects back on (used by Pinned.v only);
+   [variant] switches the six repaired defects back on (used by Pinned.v only);
    [fixed] is the current code. *)
 From Coq Require Import List ZArith Bool String Ascii.
 Import ListNotations.
@@ -258,8 +260,12 @@ Inductive ftype :=
 | TStruct (fs : fields)
 with fields :=
 | FNil
-| FCons (key : string) (o : option fopts) (t : ftype) (rest : fields).
-(* [o = None]: the tag holds only the key (Go: options == nil) *)
+| FCons (key : string) (o : option fopts) (t : ftype) (rest : fields)
+| FEmbed (optional : bool) (ptr : bool) (inner : fields) (rest : fields).
+(* [o = None]: the tag holds only the key (Go: options == nil).
+   [FEmbed optional ptr inner]: an anonymous (embedded) struct ([ptr]: pointer to struct) with the
+   members [inner], untagged or tagged ",optional"; its members are read from the SAME object as
+   the enclosing struct's fields. *)
 
 (* decoded Go values *)
 Inductive gval :=
@@ -306,6 +312,7 @@ with zero_fields (fs : fields) : list gval :=
   match fs with
   | FNil => []
   | FCons _ _ t rest => zero t :: zero_fields rest
+  | FEmbed _ ptr inner rest => (if ptr then VNil else VStruct (zero_fields inner)) :: zero_fields rest
   end.
 
 (* the unmarshaller's own options *)
@@ -314,15 +321,17 @@ Record ucfg := mkCfg
     u_fromArray : bool    (* WithFromArray: form *);
     u_canonical : bool    (* WithCanonicalKeyFunc: header (keys are compared in canonical form) *) }.
 
-(* the five repaired defects, switchable for Pinned.v *)
+(* the six repaired defects, switchable for Pinned.v *)
 Record variant := mkVariant
   { v_dep_drops_range : bool;     (* F2: rebuilt option set lacked Range *)
     v_nan_in_range : bool;        (* NaN passed every range *)
     v_nil_slice_panics : bool;    (* null element of map[string][]T *)
     v_map_ptr_panics : bool;      (* scalar element of map[string]*T *)
-    v_negdep_blind : bool }.      (* header: the key behind "optional=!" was looked up un-canonicalised,
+    v_negdep_blind : bool;        (* header: the key behind "optional=!" was looked up un-canonicalised,
                                      i.e. never found in the canonical header map *)
-Definition fixed : variant := mkVariant false false false false false.
+    v_embed_defaults_skipped : bool }.  (* optional embedded struct: defaulted members counted as
+                                     required and absent members never given their default *)
+Definition fixed : variant := mkVariant false false false false false false.
 
 (* ------------------------------------------------------------------ options in context *)
 
@@ -378,7 +387,22 @@ Fixpoint required_fields (fs : fields) : bool :=
       || (negb (o_optional o') && match o_default o' with None => true | Some _ => false end)
       || match o_dep o' with Some (true, _) => true | _ => false end
     end || required_fields rest
+  | FEmbed opt ptr inner rest =>
+    (if opt then false else if ptr then true else required_fields inner) || required_fields rest
   end.
+
+(* processAnonymousStructFieldOptional: is any member's key present in the object? *)
+Fixpoint any_present {A} (fs : fields) (obj : list (string * A)) : bool :=
+  match fs with
+  | FNil => false
+  | FCons key _ _ rest => has key obj || any_present rest obj
+  | FEmbed _ _ _ rest => any_present rest obj
+  end.
+
+(* a member that may stay absent in a set optional embedded struct *)
+Definition member_excused (vr : variant) (ro : ropts) : bool :=
+  ro_optional ro ||
+  (negb (v_embed_defaults_skipped vr) && match ro_default ro with Some _ => true | None => false end).
 
 (* ------------------------------------------------------------------ primitives *)
 
@@ -615,6 +639,47 @@ with um_fields (vr : variant) (cfg : ucfg) (fs : fields) (obj : list (string * j
           end) ;;
     xs <- um_fields vr cfg rest obj ;;
     Ok (x :: xs)
+  | FEmbed opt ptr inner rest =>
+    (* processAnonymousField: members come from the same object *)
+    x <- (if opt then
+            let filled := any_present inner obj in
+            r <- um_opt_members vr cfg inner obj filled ;;
+            _ <- guard (negb filled || snd r) ENotSet ;;          (* "is not fully set" *)
+            Ok (if ptr then (if filled then VPtr (VStruct (fst r)) else VNil) else VStruct (fst r))
+          else
+            xs <- um_fields vr cfg inner obj ;;
+            Ok (if ptr then VPtr (VStruct xs) else VStruct xs)) ;;
+    ys <- um_fields vr cfg rest obj ;;
+    Ok (x :: ys)
+  end
+
+(* processAnonymousStructFieldOptional: only members whose key is present are unmarshalled;
+   absent ones stay zero, except that once the struct is set at all ([filled]) an absent
+   member with a default gets it.  The boolean: every member is present or may be absent. *)
+with um_opt_members (vr : variant) (cfg : ucfg) (fs : fields) (obj : list (string * jv)) (filled : bool)
+                    {struct fs} : result (list gval * bool) :=
+  match fs with
+  | FNil => Ok ([], true)
+  | FCons key o t rest =>
+    xb <- (_ <- guard (opts_ok o) ETag ;;
+           ro <- resolve vr (u_canonical cfg) key o obj ;;
+           x <- match field_input cfg t key obj with
+                | None =>
+                  match ro_default ro with
+                  | Some d => if filled && negb (v_embed_defaults_skipped vr) then um_default t d else Ok (zero t)
+                  | None => Ok (zero t)
+                  end
+                | Some JNull => if ro_optional ro then Ok (zero t) else Err ENil
+                | Some v => um_present vr cfg t ro v
+                end ;;
+           Ok (x, has key obj || member_excused vr ro)) ;;
+    r <- um_opt_members vr cfg rest obj filled ;;
+    Ok (fst xb :: fst r, snd xb && snd r)
+  | FEmbed opt ptr inner rest =>
+    (* an embedded struct nested in an optional embedded one is looked up under its Go field
+       name, which no document key equals: never set *)
+    r <- um_opt_members vr cfg rest obj filled ;;
+    Ok ((if ptr then VNil else VStruct (zero_fields inner)) :: fst r, opt && snd r)
   end.
 
 (* Unmarshaler.Unmarshal on a decoded document ([None]: the decoder rejected the stream) *)
@@ -633,6 +698,13 @@ Fixpoint ptr_target_ok (t : ftype) : bool :=
 
 Fixpoint is_slice_deref (t : ftype) : bool :=
   match t with TSlice _ => true | TPtr t' => is_slice_deref t' | _ => false end.
+
+Fixpoint no_embed (fs : fields) : bool :=
+  match fs with
+  | FNil => true
+  | FCons _ _ _ rest => no_embed rest
+  | FEmbed _ _ _ _ => false
+  end.
 
 Fixpoint type_ok (t : ftype) : bool :=
   match t with
@@ -653,4 +725,6 @@ with fields_ok (fs : fields) : bool :=
        | None => true
        end
     && fields_ok rest
+  | FEmbed opt _ inner rest =>
+    fields_ok inner && (negb opt || no_embed inner) && fields_ok rest
   end.
